@@ -5,7 +5,7 @@ import vlib
 from props import ctlfam
 
 INV = ['C04_Settles', 'C04_SteadyValue', 'C04_NoWindup', 'C01_ReqWithinLimits']
-PROP = ['C04_RateStep', 'C04_RateMonotone']
+PROP = ['C04_RateStep', 'C04_RateMonotone', 'C04_NoRaiseWhileTurning']
 
 
 def mc(run, name, algs, cset, starts, lims, workers, timeout):
